@@ -326,12 +326,79 @@ pub fn meta(args: &Args) -> Value {
     })
 }
 
+/// Programs that declare the same names with other meanings (variant `v` of family `fam`): the value they
+/// yield tells whose declarations were used. Two threads compiling two variants at the same time must
+/// not see each other's aliases, types, functions or macros.
+fn same_names_program(fam: usize, v: usize) -> String {
+    let k = 2 + v % 3; // width of the innermost tuple
+    match fam % 4 {
+        0 => {
+            // alias used inside other aliases
+            let pt = vec!["float"; k].join(", ");
+            let names: Vec<String> = (0..k).map(|i| format!("a{i}")).collect();
+            let namesb: Vec<String> = (0..k).map(|i| format!("b{i}")).collect();
+            let lit = |base: usize| (0..k).map(|i| format!("{}.0", base + i)).collect::<Vec<_>>().join(", ");
+            format!(
+                "type alias Pt = ({pt})\ntype alias Seg = (Pt, Pt)\ntype alias Path2 = (Seg, Seg)\nfn endsum(s:Seg)->float {{\n  let (a, b) = s\n  let ({}) = a\n  let ({}) = b\n  {} + {} * 10.0\n}}\nfn pathsum(p:Path2)->float {{\n  let (s1, s2) = p\n  endsum(s1) + endsum(s2) * 1000.0\n}}\nfn dsp(){{\n  pathsum(((({}), ({})), (({}), ({}))))\n}}\n",
+                names.join(", "), namesb.join(", "), names.join(" + "), namesb.join(" + "), lit(1), lit(10), lit(20), lit(30)
+            )
+        }
+        1 => {
+            // sum type with the same constructor names and other payloads
+            let payload = vec!["float"; k].join(", ");
+            let binders: Vec<String> = (0..k).map(|i| format!("p{i}")).collect();
+            let args = (0..k).map(|i| format!("{}.0", i + 1 + v)).collect::<Vec<_>>().join(", ");
+            format!(
+                "type Shape = Dot | Box({payload}) | Ring(float)\nfn area(s: Shape){{\n  match s {{\n    Dot => 0.0,\n    Box({}) => {},\n    Ring(r) => r * {}.0\n  }}\n}}\nfn dsp(){{\n  area(Box({args})) + area(Ring(2.0)) * 100.0 + area(Dot)\n}}\n",
+                binders.join(", "), binders.join(" * "), v + 3
+            )
+        }
+        2 => {
+            // macro and macro-stage helper of the same name generating other code
+            format!(
+                "#stage(macro)\nfn weights(){{ [{}] }}\nfn pickw(i){{ let w = weights()\n  w[i] |> lift_f }}\nfn gain(){{ `{{ |x| x * $(pickw({})) + {}.0 }} }}\n#stage(main)\nfn cnt(){{ self + 1.0 }}\nfn dsp(){{\n  gain!()(cnt()) + $(pickw(0))\n}}\n",
+                (0..4).map(|i| format!("{}.5", i + v * 3)).collect::<Vec<_>>().join(", "), v % 4, v + 1
+            )
+        }
+        _ => {
+            // module members of the same path with other bodies, reached through use / qualified path
+            format!(
+                "mod util {{\n  pub fn scale(x){{ x * {}.0 }}\n  pub mod deep {{\n    pub fn offset(){{ {}.25 }}\n  }}\n  pub use deep::offset\n}}\nuse util::scale\nfn dsp(){{\n  scale(now + 1.0) + util::offset() + util::deep::offset() * 100.0\n}}\n",
+                v + 2, v + 7
+            )
+        }
+    }
+}
+
+/// macro-stage code that panics (second element of a one-element array) next to the same macro used legally
+fn macro_stage_program(panics: bool) -> String {
+    format!(
+        "#stage(macro)\nfn second(arr:[float])->float{{\n  let (h1, rest) = split_head(arr)\n  let (h2, rest2) = split_head(rest)\n  h2\n}}\n#stage(main)\nfn dsp(){{\n  let ans = ${{ second([1.0{}]) |> lift_f }}\n  ans + 40.0\n}}\n",
+        if panics { "" } else { ", 2.0" }
+    )
+}
+
 pub fn gen_ccase(args: &Args, rng: &mut Rng, files: &[PathBuf]) -> CCase {
     let k = *rng.pick(&[2usize, 4, 4, 8, 8, 16]);
     let mut jobs: Vec<Job> = vec![];
     let njobs = 1 + rng.below(k.min(6));
+    let plain_job = |src: String, origin: &str| Job { src, path: None, scheduler: false, n: 8, input_seed: 1, wasm: false, origin: origin.into() };
     for _ in 0..njobs {
-        let pick = rng.below(10);
+        let pick = rng.below(13);
+        if pick >= 10 {
+            if pick == 12 {
+                // one job whose macro-stage code panics, and users of the same macro that must not notice
+                jobs.push(plain_job(macro_stage_program(true), "macro-stage-panic"));
+                jobs.push(plain_job(macro_stage_program(false), "macro-stage-ok"));
+            } else {
+                // two variants of one family: same declared names, other meanings
+                let fam = rng.below(4);
+                let v = rng.below(6);
+                jobs.push(plain_job(same_names_program(fam, v), &format!("same-names/{fam}")));
+                jobs.push(plain_job(same_names_program(fam, v + 1 + rng.below(2)), &format!("same-names/{fam}")));
+            }
+            continue;
+        }
         let job = if pick < 5 && !files.is_empty() {
             // shipped source (possibly mutated: type errors, other constants)
             let mut tries = 0;
